@@ -231,6 +231,34 @@ theorem truncFixGo_spec (a b : Int) (hb : b ≠ 0) :
   simp only [e]
   exact ⟨by linarith, habs, hs1, hs2⟩
 
+/-- what a correct fixnum branch of `floor` computes from Go's truncating `/` and `%` (`floorFix`, the
+    repair the pinned test forbids): floor division for both signs of the divisor:
+    remainder identity, and the remainder has the sign of the divisor -/
+theorem floorFix_spec (a b : Int) (hb : b ≠ 0) :
+    a = (floorFix a b).1 * b + (floorFix a b).2 ∧
+    (0 < b → 0 ≤ (floorFix a b).2 ∧ (floorFix a b).2 < b) ∧
+    (b < 0 → b < (floorFix a b).2 ∧ (floorFix a b).2 ≤ 0) := by
+  have hid := Int.tmod_add_mul_tdiv a b
+  have habs : (Int.tmod a b).natAbs < b.natAbs := by
+    rw [Int.natAbs_tmod]; exact Nat.mod_lt _ (Int.natAbs_pos.mpr hb)
+  have hs1 : 0 ≤ a → 0 ≤ Int.tmod a b := fun h => Int.tmod_nonneg b h
+  have hs2 : a ≤ 0 → Int.tmod a b ≤ 0 := fun h => by
+    have := Int.tmod_nonneg (a := -a) b (by omega)
+    rw [Int.neg_tmod] at this; omega
+  have hf : floorFix a b =
+      if Int.tmod a b ≠ 0 ∧ ((Int.tmod a b < 0) ≠ (b < 0)) then (Int.tdiv a b - 1, Int.tmod a b + b)
+      else (Int.tdiv a b, Int.tmod a b) := rfl
+  rw [hf]
+  generalize Int.tmod a b = r at *
+  generalize Int.tdiv a b = q at *
+  by_cases h1 : r ≠ 0 ∧ ((r < 0) ≠ (b < 0))
+  · rw [if_pos h1]
+    simp only
+    refine ⟨by nlinarith, ?_, ?_⟩ <;> intro hbs <;> simp at h1 <;> omega
+  · rw [if_neg h1]
+    simp only
+    refine ⟨by nlinarith, ?_, ?_⟩ <;> intro hbs <;> simp at h1 <;> omega
+
 /-- the full statement `floorFixGo_spec` (also for `b < 0`: `b < r ≤ 0`) is FALSE for the code as
     it is: the adjustment for a negative divisor goes the wrong way. It is pinned by
     test/cl/floor_test.go and recorded as a known finding (findings/C05.json, op=floor q=d-).
